@@ -132,11 +132,21 @@ func DevelopmentMode(mode bool) Option {
 // in the set's templates cache, and if it can't find the template it will try to load the same paths via
 // the loader, and, if parsed successfully, cache the template (unless running in development mode).
 func (s *Set) GetTemplate(templatePath string) (t *Template, err error) {
-	return s.getSiblingTemplate(templatePath, "/", true)
+	return s.getSiblingTemplate(templatePath, "/", true, nil)
 }
 
-// loading lists the templates whose extends/import clauses led to this lookup (outermost first).
-func (s *Set) getSiblingTemplate(templatePath, siblingPath string, cacheAfterParsing bool, loading ...string) (t *Template, err error) {
+// loadState accompanies one lookup through the extends and import clauses it leads to.
+type loadState struct {
+	// the templates whose extends/import clauses led to this lookup (outermost first)
+	stack []string
+	// what has been loaded on behalf of this lookup so far, by path: when nothing is cached (Set.Parse,
+	// development mode, a cache that forgets) a template that is reached on several ways is still
+	// loaded once, not once per way - the number of ways doubles with every layer of a diamond
+	done map[string]*Template
+}
+
+// ld may be nil (a lookup that is not made on behalf of an extends or import clause).
+func (s *Set) getSiblingTemplate(templatePath, siblingPath string, cacheAfterParsing bool, ld *loadState) (t *Template, err error) {
 	templatePath = filepath.ToSlash(templatePath)
 	siblingPath = filepath.ToSlash(siblingPath)
 	if !path.IsAbs(templatePath) {
@@ -145,11 +155,11 @@ func (s *Set) getSiblingTemplate(templatePath, siblingPath string, cacheAfterPar
 	} else {
 		templatePath = path.Clean(templatePath)
 	}
-	return s.getTemplate(templatePath, cacheAfterParsing, loading...)
+	return s.getTemplate(templatePath, cacheAfterParsing, ld)
 }
 
 // same as GetTemplate, but doesn't cache a template when found through the loader.
-func (s *Set) getTemplate(templatePath string, cacheAfterParsing bool, loading ...string) (t *Template, err error) {
+func (s *Set) getTemplate(templatePath string, cacheAfterParsing bool, ld *loadState) (t *Template, err error) {
 	if !s.developmentMode {
 		// a template is stored under the path it was requested with
 		if t := s.cache.Get(templatePath); t != nil {
@@ -174,7 +184,7 @@ func (s *Set) getTemplate(templatePath string, cacheAfterParsing bool, loading .
 			}
 		}
 		if found := s.loader.Exists(canonicalPath); found {
-			t, err = s.loadFromFile(canonicalPath, cacheAfterParsing, loading...)
+			t, err = s.loadFromFile(canonicalPath, cacheAfterParsing, ld)
 			if err == nil && cacheAfterParsing && !s.developmentMode {
 				verifYield("getTemplate:put")
 				s.cache.Put(templatePath, t)
@@ -185,12 +195,18 @@ func (s *Set) getTemplate(templatePath string, cacheAfterParsing bool, loading .
 	return nil, fmt.Errorf("template %s could not be found", templatePath)
 }
 
-func (s *Set) loadFromFile(templatePath string, cacheAfterParsing bool, loading ...string) (template *Template, err error) {
+func (s *Set) loadFromFile(templatePath string, cacheAfterParsing bool, ld *loadState) (template *Template, err error) {
+	if ld == nil {
+		ld = &loadState{}
+	}
 	// a template that (indirectly) extends or imports itself would be loaded again and again
-	for _, name := range loading {
+	for _, name := range ld.stack {
 		if name == templatePath {
-			return nil, fmt.Errorf("template %s extends or imports itself (through %v)", templatePath, loading)
+			return nil, fmt.Errorf("template %s extends or imports itself (through %v)", templatePath, ld.stack)
 		}
+	}
+	if t := ld.done[templatePath]; t != nil {
+		return t, nil
 	}
 	f, err := s.loader.Open(templatePath)
 	if err != nil {
@@ -201,8 +217,18 @@ func (s *Set) loadFromFile(templatePath string, cacheAfterParsing bool, loading 
 	if err != nil {
 		return nil, err
 	}
-	// what this template extends or imports is looked up on behalf of everything in loading and of itself
-	return s.parse(templatePath, string(content), cacheAfterParsing, append(loading[:len(loading):len(loading)], templatePath)...)
+	if ld.done == nil {
+		ld.done = make(map[string]*Template)
+	}
+	// what this template extends or imports is looked up on behalf of everything in the stack and of itself
+	template, err = s.parse(templatePath, string(content), cacheAfterParsing, &loadState{
+		stack: append(ld.stack[:len(ld.stack):len(ld.stack)], templatePath),
+		done:  ld.done,
+	})
+	if err == nil {
+		ld.done[templatePath] = template
+	}
+	return template, err
 }
 
 // Parse parses `contents` as if it were located at `templatePath`, but won't put the result into the cache.
